@@ -34,8 +34,23 @@ def oracle(c, o):
     cap = c["cfg"]["max_records"]
     dist = t.dists
     threshold = o["consts"]["max_records_count"] // 10
+    # the responsible range the HISTORY last set, per step (never read back from the store; a restarted
+    # store has none until it is set again)
+    range_after, cur = [], None
+    for op_, st_ in zip(c["ops"], o["steps"]):
+        if op_["op"] in ("set_range", "set_range_at"):
+            cur = int(st_["extra"])
+        elif op_["op"] == "crash":
+            cur = None
+        range_after.append(cur)
     for i, op, out, pre, post in t.steps():
         name = op["op"]
+        set_range = range_after[i]
+        range_before = range_after[i - 1] if i > 0 else None
+        if name in ("set_range", "set_range_at"):
+            if post["range"] is None or int(post["range"]) != set_range or post["range2"] != post["range"]:
+                v.append(("range-setting-not-applied", "step %d: the responsible range was set to %d but the store reports %s"
+                          % (i, set_range, post["range"])))
         pre_idx = [a for a, _ in pre["idx"]]
         post_idx = [a for a, _ in post["idx"]]
         # 1. the three views of the held set agree
@@ -88,13 +103,13 @@ def oracle(c, o):
                           "puts occurred earlier: %s)" % (i, name, len(post_idx), cap, inflight, t.burst)))
         # 4. clean-up
         if name == "cleanup":
-            applies = len(pre_idx) >= threshold and pre["range"] is not None
+            applies = len(pre_idx) >= threshold and range_before is not None
             removed = set(pre_idx) - set(post_idx)
             if not applies and removed:
                 v.append(("cleanup-when-not-applicable", "step %d: clean-up removed %d records from a store of %d (threshold %d, range %s)"
-                          % (i, len(removed), len(pre_idx), threshold, pre["range"])))
+                          % (i, len(removed), len(pre_idx), threshold, range_before)))
             if applies:
-                r = int(pre["range"])
+                r = range_before
                 want = {k for k in pre_idx if dist[k] >= r}
                 if removed - want:
                     v.append(("cleanup-removed-in-range-record", "step %d: clean-up removed keys %s that are inside the responsible range" % (i, sorted(removed - want)[:5])))
@@ -103,10 +118,14 @@ def oracle(c, o):
         # 5. quoted figures
         if name == "quote":
             # a quote does not change the store: judge it on the state exposed right after it
-            if post["range"] is None:
+            if set_range is None:
                 close = len(post_idx)
             else:
-                close = sum(1 for k in post_idx if dist[k] < int(post["range"]))
+                close = sum(1 for k in post_idx if dist[k] < set_range)
+            dens = None if out.get("density") is None else int(out["density"])
+            if dens != set_range:
+                v.append(("quote-figures-wrong", "step %d: the quote signs network density %s, the responsible range last set is %s"
+                          % (i, dens, set_range)))
             want = (close, cap, t.pays if not t.partial else post["pay"], op["k"] in post_idx)
             got = (out["close"], out["maxr"], out["pay"], out["stored"])
             if want != got:
@@ -173,6 +192,11 @@ def gen(ctx):
                 ops.append(rng.choice([{"op": "settle"}, {"op": "step"}, {"op": "quote", "k": k}]))
                 if rng.random() < 0.3:
                     ops.append({"op": "set_range_at", "k": rng.choice(order), "delta": rng.choice([-1, 0, 1])})
+                if rng.random() < 0.35:
+                    # two or three settings in a row (shrink-then-widen and widen-then-shrink both occur), then a quote
+                    for kk in rng.sample(order, min(len(order), rng.choice([2, 3]))):
+                        ops.append({"op": "set_range_at", "k": kk, "delta": rng.choice([-1, 0, 1])})
+                    ops.append({"op": "quote", "k": rng.choice(order)})
                 if rng.random() < 0.3:
                     ops.append({"op": "quote", "k": rng.choice(order)})
                 if rng.random() < 0.2:
@@ -201,11 +225,18 @@ def gen(ctx):
         vals = [tiny(0), tiny(1)]
         ops = [{"op": "put", "k": k, "v": 0, "t": 0, "nodump": True} for k in range(n - 1)]
         ops.append({"op": "settle", "nodump": True})
-        ops.append({"op": "set_range_at", "k": rng.randrange(n), "delta": rng.choice([-1, 0, 1]), "nodump": True})
+        # narrow first, then wide (the quote and the clean-up must use the wide one), by the generator's own distances
+        case_peer = bytes(rng.getrandbits(8) for _ in range(32))
+        byd = sorted(range(n), key=lambda k: py_distance(case_peer, keys[k]))
+        narrow, wide = byd[n // 4], byd[(3 * n) // 4]
+        ops.append({"op": "set_range_at", "k": narrow, "delta": rng.choice([-1, 0, 1]), "nodump": True})
+        ops.append({"op": "set_range_at", "k": wide, "delta": rng.choice([-1, 0, 1])})
         ops += [{"op": "quote", "k": 0}, {"op": "cleanup"}, {"op": "quote", "k": 1}]
         ops += [{"op": "put", "k": n - 1, "v": 0, "t": 0, "nodump": True}, {"op": "settle", "nodump": True}]
         ops += [{"op": "quote", "k": 0}, {"op": "cleanup"}, {"op": "quote", "k": 1}, {"op": "settle", "nodump": True}, {"op": "quote", "k": 2}]
-        cases.append(mk_case(rng, keys, vals, ops, 16384, 25, "cleanup-threshold-%d" % n))
+        cc = mk_case(rng, keys, vals, ops, 16384, 25, "cleanup-threshold-%d" % n)
+        cc["cfg"]["peer"] = case_peer.hex()
+        cases.append(cc)
     return cases
 
 
